@@ -47,6 +47,7 @@ def run(ctx):
     ring(ctx, facts)
     ring_ops(ctx, facts)
     waker_store(ctx, facts)
+    waker_ring(ctx, facts)
     from rules import C13
     C13.spare(ctx, facts)             # the receive side's reassembly of messages from chunks
     ctx.assume("std::task::Waker, std::sync::Mutex and AtomicUsize behave as documented")
@@ -691,3 +692,51 @@ def waker_store(ctx, facts):
 def malsec_leaves(e):
     from rules import malsec
     return malsec._leaves(e, "arg")
+
+
+def waker_ring(ctx, facts):
+    """UnorderedReceiver keeps one waker slot per record in the window (next, next + len]; a record further ahead goes to
+    the overflow list.  If the ring were used for a record outside the window, its slot index (i mod len) would collide
+    with the slot of a record inside the window and one of the two waiters would be overwritten."""
+    from rules.C13 import ieval, NoEval
+    ctx.rule("SLOT-ring: in OperatingState::add_waker the ring slot (an index expression of i and wakers.len()) is written only on paths whose guards, evaluated for len = 1..6, next = 0..7 and every i, imply next < i <= next + len, and the slot indices of the len records of the window are pairwise distinct; every other i > next goes to the overflow list")
+    b = facts.bodies.get("helpers::buffers::unordered_receiver::OperatingState::<S, C>::add_waker")
+    if b is None:
+        return ctx.missing("SLOT-ring", "OperatingState::add_waker")
+    ctx.count(bodies=1)
+    dom = b.dominators()
+    eg = flow.edge_guards(b)
+    OPS = {"Ge": lambda a, c: a >= c, "Gt": lambda a, c: a > c, "Le": lambda a, c: a <= c, "Lt": lambda a, c: a < c, "Eq": lambda a, c: a == c, "Ne": lambda a, c: a != c}
+    ring = [(bb, flow.expr_of(b, t["args"][1], max_depth=8)) for bb, t in b.calls() if (F.callee(t)[0] or "").endswith("ops::IndexMut::index_mut") and "wakers" in str(flow.expr_of(b, t["args"][0], max_depth=4)) and "overflow" not in str(flow.expr_of(b, t["args"][0], max_depth=4))]
+    over = [bb for bb, t in b.calls() if (F.callee(t)[0] or "").endswith("Vec::<T, A>::push") and "overflow_wakers" in str(flow.expr_of(b, t["args"][0], max_depth=4))]
+    if not ring or not over:
+        return ctx.missing("SLOT-ring", "ring slot write / overflow push in add_waker")
+    I, NEXT, LEN = ("arg", 2), ("arg", 1, "next"), ("call", "std::vec::Vec::<T, A>::len", (("arg", 1, "wakers"),))
+    bad = None
+    try:
+        for ln in range(1, 7):
+            for nx in range(0, 8):
+                slots = {}
+                for i in range(0, nx + 2 * ln + 3):
+                    env = {I: i, NEXT: nx, LEN: ln}
+                    def on(bb):
+                        return all(OPS[op](ieval(l, env), ieval(r, env)) for tgt, (op, l, r) in eg if op in OPS and flow.dominates(dom, tgt, bb))
+                    r_on = [e for bb, e in ring if on(bb)]
+                    o_on = any(on(bb) for bb in over)
+                    inside = nx < i <= nx + ln
+                    if r_on and not inside and bad is None:
+                        bad = f"len {ln}, next {nx}: record {i} is outside the window ({nx}, {nx + ln}] but uses ring slot {ieval(r_on[0], env)}, which belongs to record {[j for j in range(nx + 1, nx + ln + 1) if j % ln == ieval(r_on[0], env) % ln][:1]}: one of the two wakers is overwritten"
+                    if inside and not r_on and bad is None:
+                        bad = f"len {ln}, next {nx}: record {i} inside the window gets no ring slot"
+                    if i > nx + ln and not o_on and bad is None:
+                        bad = f"len {ln}, next {nx}: record {i} beyond the window is not put on the overflow list"
+                    if r_on and inside:
+                        s_ = ieval(r_on[0], env)
+                        if not (0 <= s_ < ln) and bad is None:
+                            bad = f"len {ln}: slot {s_} out of range for record {i}"
+                        if s_ in slots and bad is None:
+                            bad = f"len {ln}, next {nx}: records {slots[s_]} and {i} of the same window share slot {s_}"
+                        slots[s_] = i
+    except NoEval as ex:
+        bad = f"cannot evaluate ({ex})"
+    ctx.ob("SLOT-ring", "window-maps-injectively-to-slots", bad is None, "ring slots are used exactly for next < i <= next + len, one slot per record; the rest overflows" if bad is None else bad, site_of(b, ring[0][0]))
